@@ -150,12 +150,11 @@ Proof. vm_compute. split; reflexivity. Qed.
 (* ---- handover ---- *)
 (* For every prefix-stable framer and every cut of the byte stream a ++ b: frames of the old process on a, then frames of the
    new process on (transferred buffer, b) = frames of one process on a ++ b; residual buffer and closed flag agree; the new
-   process never spins.  (no_reply: as in Lib/Seg.v seg_independent.) *)
+   process never spins. *)
 Theorem c11_handover_stream : forall (F : Type) (parse : bytes -> presult F), stable parse ->
   forall a b tls,
   let old := feed parse (@init F) a in
   dead old = false ->
-  no_reply (feed parse (@init F) (a ++ b)) ->
   (blen (buf old) < 4294967296)%N -> (blen tls < 4294967296)%N ->
   exists nw, handover old tls = Some (nw, tls) /\
     let fin := feed parse nw b in
@@ -173,9 +172,7 @@ Example c11_handover_example :
   let old := feed lp_parse init a in
   dead old = false /\ buf old = a /\ out old = [] /\
   out (feed lp_parse init (a ++ b)) = [EFrame [7; 8]%N; EFrame [9]%N] /\
-  buf (feed lp_parse init (a ++ b)) = [3]%N /\
-  (forall f, ~ In (EReply f) (out (feed lp_parse init (a ++ b)))).
+  buf (feed lp_parse init (a ++ b)) = [3]%N.
 Proof.
-  split; [exact lp_stable|]. cbn zeta. vm_compute. repeat split; try reflexivity.
-  intros f [H|[H|[]]]; discriminate.
+  split; [exact lp_stable|]. cbn zeta. vm_compute. repeat split; reflexivity.
 Qed.
